@@ -13,7 +13,7 @@ from ..cfg import CFG, ENTRY, EXIT, RAISE
 from ..core import Ctx
 from ..flow import AV
 from ..model import AnalysisError, FuncInfo, canon, dotted, norm, walk_no_nested, body_stmts, kwarg
-from .common import enclosing, prog, resolve_local
+from .common import conditions_at, enclosing, expand_locals, prog, resolve_local
 
 RI_FIELDS = ("_annotations", "_categories", "bound_inf", "bound_sup")
 # named friend sites outside class Continuum that may write the representation, one reason each
@@ -345,13 +345,10 @@ def rule_add(ctx: Ctx):
             if isinstance(n, ast.Assign) and len(n.targets) == 1 and _annots_sub(n.targets[0], gs) is not None:
                 found += 1
                 key = norm(_annots_sub(n.targets[0], gs))
-                ifs = enclosing(g.node, n, (ast.If,))
                 ok = False
-                for i in ifs:
-                    t = i.test
-                    if isinstance(t, ast.Compare) and len(t.ops) == 1 and isinstance(t.ops[0], ast.NotIn) and \
-                            norm(t.left) == key and _is_self_attr(t.comparators[0], gs, "_annotations") and \
-                            any(n is x for b in i.body for x in ast.walk(b)):
+                for t, truth in conditions_at(g.node, n):
+                    if isinstance(t, ast.Compare) and len(t.ops) == 1 and norm(t.left) == key and _is_self_attr(t.comparators[0], gs, "_annotations") and \
+                            ((isinstance(t.ops[0], ast.NotIn) and truth) or (isinstance(t.ops[0], ast.In) and not truth)):
                         ok = True
                 fresh = isinstance(n.value, ast.Call) and dotted(n.value.func) == "SortedSet" and not n.value.args
                 ctx.check(ok and fresh, "R-C13-3", g, n, "an annotator's set is created empty and only when the annotator is absent",
@@ -391,8 +388,9 @@ def rule_add(ctx: Ctx):
 # ---------------------------------------------------------------------------------------------
 # R-C13-4 copy / copy_flush completeness
 # ---------------------------------------------------------------------------------------------
-def _carried_fields(ctx: Ctx, f: FuncInfo) -> Dict[str, ast.AST]:
-    """fields of the new continuum that `f` derives from the same field of self (syntactic, through the constructor too)"""
+def _carried_fields(ctx: Ctx, f: FuncInfo, depth: int = 0) -> Dict[str, ast.AST]:
+    """fields of the new continuum that `f` derives from the same field of self (syntactic, through the constructor too, and through
+    another method of self that builds the new continuum, e.g. copy() written on top of copy_flush())"""
     M = ctx.model
     sn = f.self_name
     init = M.classes["Continuum"].methods["__init__"]
@@ -419,6 +417,18 @@ def _carried_fields(ctx: Ctx, f: FuncInfo) -> Dict[str, ast.AST]:
             for k in n.value.keywords:
                 if k.arg in ctor_map and _mentions_self_field(k.value, sn, ctor_map[k.arg]):
                     carried[ctor_map[k.arg]] = n
+        elif isinstance(n, ast.Assign) and isinstance(n.value, ast.Call) and isinstance(n.value.func, ast.Attribute) and \
+                norm(n.value.func.value) == sn and not n.value.args and not n.value.keywords and isinstance(n.targets[0], ast.Name) and depth < 2:
+            builder = M.find_method(M.classes["Continuum"], n.value.func.attr)
+            if builder is not None and builder is not f and not isinstance(builder.node, ast.Lambda):
+                try:
+                    inner = _carried_fields(ctx, builder, depth + 1)
+                except AnalysisError:
+                    continue
+                ctx.functions_analysed.add(builder.qualname)
+                newvar = n.targets[0].id
+                for k in inner:
+                    carried[k] = n
     if newvar is None:
         raise AnalysisError("R-C13-4", f"{f.qualname}: construction of the new continuum not found")
     for n in walk_no_nested(f.node):
@@ -554,9 +564,60 @@ def rule_merge(ctx: Ctx):
                       bad_detail="annotators without units are lost by merge (no add_annotator for every annotator of the other continuum)", key="annotators")
         else:
             ctx.undecided("R-C13-5", f, None, "how merge creates the other continuum's annotators is not recognised (not a verdict)", key="annotators")
-        rets = [n for n in walk_no_nested(f.node) if isinstance(n, ast.Return) and n.value is not None]
-        ctx.check(all(isinstance(r.value, ast.Name) and r.value.id == target_var for r in rets) and bool(rets), "R-C13-5", f,
-                  rets[0] if rets else None, "out-of-place merge returns the merged copy", key="return")
+        # which value each mode returns: walk the top-level block with the polarity of in_place known after each `if [not] in_place:`
+        def flag_test(t):
+            if isinstance(t, ast.Name) and t.id == "in_place":
+                return True
+            if isinstance(t, ast.UnaryOp) and isinstance(t.op, ast.Not) and isinstance(t.operand, ast.Name) and t.operand.id == "in_place":
+                return False
+            return None
+
+        outcomes = []      # (mode or None for both, returned expression text or None for no value, node)
+
+        def walk_block(stmts, mode) -> bool:
+            """returns True when the block always returns (for the given mode)"""
+            for st in stmts:
+                if isinstance(st, ast.Return):
+                    val = None if st.value is None or (isinstance(st.value, ast.Constant) and st.value.value is None) else norm(st.value)
+                    outcomes.append((mode, val, st))
+                    return True
+                if isinstance(st, ast.If):
+                    pol = flag_test(st.test)
+                    if pol is not None:
+                        if mode is None:
+                            t1 = walk_block(st.body, pol)
+                            t2 = walk_block(st.orelse, not pol)
+                            if t1 and t2:
+                                return True
+                            if t1:
+                                mode = not pol
+                            elif t2:
+                                mode = pol
+                        else:
+                            if walk_block(st.body if mode == pol else st.orelse, mode):
+                                return True
+                    else:
+                        if any(isinstance(x, ast.Return) for x in ast.walk(st)):
+                            outcomes.append((mode, "?", st))
+                elif any(isinstance(x, ast.Return) for x in ast.walk(st)):
+                    outcomes.append((mode, "?", st))
+            return False
+        if not walk_block(body_stmts(f.node), None):
+            outcomes.append(("fall", None, None))
+        # out-of-place mode: every outcome it can reach returns the target
+        out_modes = [(m, v, n) for (m, v, n) in outcomes if m in (None, False, "fall")]
+        # `fall` is reached by every mode that did not return earlier
+        returned_false = any(m in (None, False) and v is not None for (m, v, n) in outcomes if m != "fall")
+        vals_false = [v for (m, v, n) in outcomes if m in (None, False)]
+        if not vals_false and any(m == "fall" for (m, v, n) in outcomes):
+            vals_false = [None]
+        if "?" in [v for (_, v, _) in outcomes]:
+            ctx.undecided("R-C13-5", f, None, "returns of merge depend on something other than in_place (not a verdict)", key="return")
+        else:
+            ctx.check(bool(vals_false) and all(v == target_var for v in vals_false), "R-C13-5", f,
+                      next((n for (m, v, n) in outcomes if m in (None, False) and n is not None), None),
+                      "out-of-place merge returns the merged copy",
+                      bad_detail=f"with in_place=False merge returns {vals_false or 'nothing'} instead of the merged copy `{target_var}`", key="return")
     a = ctx.fn("Continuum.__add__", "R-C13-5")
     body = body_stmts(a.node)
     ok = len(body) == 1 and isinstance(body[0], ast.Return) and isinstance(body[0].value, ast.Call) and \
@@ -581,9 +642,15 @@ def rule_eq(ctx: Ctx):
         len(first.body) == 1 and isinstance(first.body[0], ast.Return) and getattr(first.body[0].value, "value", 1) is False
     ctx.check(ok, "R-C13-6", f, first, "a non-continuum compares unequal, before anything else is read", key="isinstance")
 
+    def disjuncts(t: ast.AST) -> List[str]:
+        if isinstance(t, ast.BoolOp) and isinstance(t.op, ast.Or):
+            return [d for v in t.values for d in disjuncts(v)]
+        return [norm(t)]
+
     def ret_false_if(test_norms: Set[str]) -> Optional[ast.If]:
+        # `if A or B: return False` is the same as two guards
         for n in walk_no_nested(f.node):
-            if isinstance(n, ast.If) and norm(n.test) in test_norms and n.body and isinstance(n.body[0], ast.Return) and \
+            if isinstance(n, ast.If) and set(disjuncts(n.test)) & test_norms and n.body and isinstance(n.body[0], ast.Return) and \
                     getattr(n.body[0].value, "value", 1) is False:
                 return n
         return None
@@ -599,8 +666,8 @@ def rule_eq(ctx: Ctx):
     if loop is not None:
         tg = [x.id for x in ast.walk(loop.target) if isinstance(x, ast.Name)]
         if len(tg) == 4:
-            tests = {norm(n.test) for n in ast.walk(loop) if isinstance(n, ast.If) and n.body and isinstance(n.body[0], ast.Return)
-                     and getattr(n.body[0].value, "value", 1) is False}
+            tests = {d for n in ast.walk(loop) if isinstance(n, ast.If) and n.body and isinstance(n.body[0], ast.Return)
+                     and getattr(n.body[0].value, "value", 1) is False for d in disjuncts(n.test)}
             unit_test = any(t in tests for t in (f"{tg[1]} != {tg[3]}", f"{tg[3]} != {tg[1]}")) and \
                 any(t in tests for t in (f"{tg[0]} != {tg[2]}", f"{tg[2]} != {tg[0]}"))
     ctx.check(unit_test, "R-C13-6", f, loop, "units are compared pairwise in iteration order (annotator and unit)",
@@ -669,8 +736,7 @@ def rule_reset_bounds(ctx: Ctx):
                 for fld, want_agg, want_el in (("bound_inf", "min", "segment.start"), ("bound_sup", "max", "segment.end")):
                     if _is_self_attr(t, sn, fld):
                         seen.add(fld)
-                        agg, dom, el = _classify_agg(f, n.value, sn)
-                        dflt = kwarg(n.value, "default") if isinstance(n.value, ast.Call) else None
+                        agg, dom, el = _classify_agg(f, expand_locals(f.node, n.value), sn)
                         if agg != want_agg or el != want_el:
                             if dom == "?":
                                 ctx.undecided("R-C13-7", f, n, f"unrecognised shape of the {fld} reset", key=fld)
